@@ -154,6 +154,34 @@ func (c *nfClient) nfOf(e *Engine, st *State, x ast.Expr) (string, string) {
 		if callee == nil {
 			return "none", ""
 		}
+		switch callee.FullName() {
+		case "fmt.Errorf":
+			// %w keeps the wrapped error visible to errors.As
+			if format, ok := constString(e.Info, v.Args[0]); !ok || strings.Contains(format, "%w") {
+				out, src := "none", ""
+				for _, a := range v.Args[1:] {
+					if at := e.Info.TypeOf(a); at != nil && TypeStr(at) == "error" {
+						n, s := c.nfOf(e, st, a)
+						if n != "none" && (src == "" || n == "+") {
+							src = s
+						}
+						out = joinNF(out, n)
+					}
+				}
+				return out, src
+			}
+			return "none", ""
+		case "errors.Join":
+			out, src := "none", ""
+			for _, a := range v.Args {
+				n, s := c.nfOf(e, st, a)
+				if n != "none" && (src == "" || n == "+") {
+					src = s
+				}
+				out = joinNF(out, n)
+			}
+			return out, src
+		}
 		switch callee.Name() {
 		case "makeErrorOpaque":
 			return "none", ""
@@ -214,7 +242,42 @@ func (c *nfClient) nfOf(e *Engine, st *State, x ast.Expr) (string, string) {
 	if c.containsNFLiteral(e, x) {
 		return c.byCount(st), fmt.Sprintf("%s builds a not-found error after consuming tokens", c.fn)
 	}
+	// a wrapper that errors.As can see through keeps the not-found-ness of what it wraps:
+	// &T{..., err: inner} where T has an Unwrap method
+	if lit := litOf(x); lit != nil {
+		t := e.Info.TypeOf(lit)
+		if t != nil && hasUnwrap(t) {
+			out, src := "none", ""
+			for _, el := range lit.Elts {
+				v := el
+				if kv, ok := el.(*ast.KeyValueExpr); ok {
+					v = kv.Value
+				}
+				if vt := e.Info.TypeOf(v); vt != nil && TypeStr(vt) == "error" {
+					n, s := c.nfOf(e, st, v)
+					if n != "none" && (src == "" || n == "+") {
+						src = s
+					}
+					out = joinNF(out, n)
+				}
+			}
+			return out, src
+		}
+	}
 	return "none", ""
+}
+
+// hasUnwrap: values of t (or *t) expose the error they wrap to errors.Is/As.
+func hasUnwrap(t types.Type) bool {
+	for _, tt := range []types.Type{t, types.NewPointer(t)} {
+		ms := types.NewMethodSet(tt)
+		for i := 0; i < ms.Len(); i++ {
+			if ms.At(i).Obj().Name() == "Unwrap" {
+				return true
+			}
+		}
+	}
+	return false
 }
 
 func (c *nfClient) byCount(st *State) string {
